@@ -192,6 +192,7 @@ fn fingerprint(t: &Tableau) -> u64 {
 
 #[derive(Clone, Debug, Default)]
 pub struct Probes {
+    pub pipe_driver: u64,
     pub pivots_checked: u64,
     pub degenerate_pivot: u64,
     pub ratio_tie: u64,
@@ -502,7 +503,14 @@ enum Kind {
     Solve,
     Avoid,
     StepByStep,
+    /// `StepByStepSimplexPipe` applied to a `PipeableData::Tableau`: the pipe layer's own
+    /// driver (fixed budget of `PIPE_LIMIT`, works on its own copy and hands the state back
+    /// inside the result or, on error, next to the error)
+    Pipe,
 }
+
+/// Iteration budget hard-wired into `StepByStepSimplexPipe`.
+const PIPE_LIMIT: i64 = 1000;
 
 #[derive(Debug, Clone, Copy, PartialEq)]
 enum Term {
@@ -553,6 +561,31 @@ fn run_driver(t: &mut Tableau, kind: Kind, limit: i64, prefer: &[usize]) -> Driv
                 Err(e) => fail(e),
             }
         }
+        Kind::Pipe => {
+            use rooc::pipe::{PipeContext, PipeError, Pipeable, PipeableData, StepByStepSimplexPipe};
+            let fns: indexmap::IndexMap<String, Box<dyn rooc::RoocFunction>> =
+                indexmap::IndexMap::new();
+            let pctx = PipeContext::new(vec![], &fns);
+            let mut data = PipeableData::Tableau(t.clone());
+            match StepByStepSimplexPipe::new().pipe(&mut data, &pctx) {
+                Ok(PipeableData::OptimalTableauWithSteps(o)) => {
+                    // the state the stage reached is the one it hands back
+                    *t = o.result().tableau().clone();
+                    DriverOut {
+                        term: Term::Finished,
+                        optimal_value: Some(o.result().optimal_value()),
+                        values: Some(o.result().variables_values().clone()),
+                        steps: Some(o.steps().iter().map(|s| s.to_string()).collect()),
+                        returned: Some(o.result().tableau().clone()),
+                    }
+                }
+                Err(PipeError::StepByStepSimplexError(e, state)) => {
+                    *t = state;
+                    fail(e)
+                }
+                _ => fail(SimplexError::Other),
+            }
+        }
         Kind::StepByStep => match t.solve_step_by_step(limit) {
             Ok(o) => DriverOut {
                 term: Term::Finished,
@@ -600,7 +633,10 @@ fn drive(
     let mut sampled = false;
     while j <= limit {
         let mut cl = before.clone();
-        let tj = run_driver(&mut cl, kind, j, prefer).term;
+        // the pipe's budget is fixed: its intermediate states are those of the budgeted
+        // driver it wraps
+        let enum_kind = if kind == Kind::Pipe { Kind::StepByStep } else { kind };
+        let tj = run_driver(&mut cl, enum_kind, j, prefer).term;
         if tj != Term::Limit {
             // the trace ended with j-1 pivots; `cl` is the terminal state
             if fingerprint(&cl) != last_state_fp {
@@ -645,7 +681,7 @@ fn drive(
         // the outcome of the real call is still judged below where it does not need `r`
         ctx.probes.long_trace_sampled += 1;
         match term {
-            Term::Limit if limit >= FULL_LIMIT && liveness => ctx.v(
+            Term::Limit if (limit >= FULL_LIMIT || kind == Kind::Pipe) && liveness => ctx.v(
                 "cycling",
                 format!("{at}: did not finish within {limit} iterations"),
             ),
@@ -724,7 +760,7 @@ fn drive(
                     format!("{at}: IterationLimitReached after {pivots} pivots with a budget of {limit}"),
                 );
             }
-            if limit >= FULL_LIMIT && liveness {
+            if (limit >= FULL_LIMIT || kind == Kind::Pipe) && liveness {
                 ctx.v(
                     "cycling",
                     format!("{at}: did not finish within {limit} iterations"),
@@ -1163,6 +1199,55 @@ fn run_tableau_case_inner(case: &TableauCase) -> TableauRun {
             }
         }
         ctx.trace.extend_from_slice(&sbs_trace);
+    }
+    if ctx.skipped.is_some() || !ctx.violations.is_empty() {
+        return finish(ctx);
+    }
+
+    // A3. the pipe layer's driver (`StepByStepSimplexPipe` on the start tableau): the state
+    // it hands back must be the terminal state of the same trace, its recorded steps and
+    // returned tableau are judged like those of solve_step_by_step
+    if case.prefixes {
+        let mut t = t0.clone();
+        let mut r = r0.clone();
+        let saved = std::mem::take(&mut ctx.trace);
+        let term = drive(
+            &mut ctx,
+            &mut t,
+            &mut r,
+            Kind::Pipe,
+            PIPE_LIMIT,
+            &[],
+            true,
+            "StepByStepSimplexPipe",
+        );
+        ctx.trace = saved;
+        ctx.probes.pipe_driver += 1;
+        if ctx.skipped.is_none() && ctx.violations.is_empty() {
+            if let Some(lp_truth) = lp_truth {
+                match (term, lp_truth) {
+                    (Term::Finished, Verdict::Optimal(z)) => {
+                        let want = z.sub(r0.value);
+                        if r.value.neg() != want {
+                            ctx.v(
+                                "not-optimal",
+                                format!("StepByStepSimplexPipe finished with exact value {} but the optimum of the initial system is {}", r.value.neg(), want),
+                            );
+                        }
+                    }
+                    (Term::Finished, other) => ctx.v(
+                        "not-optimal",
+                        format!("StepByStepSimplexPipe finished but the initial system is {}", other.tag()),
+                    ),
+                    (Term::Unbounded, Verdict::Unbounded) => {}
+                    (Term::Unbounded, other) => ctx.v(
+                        "false-unbounded",
+                        format!("StepByStepSimplexPipe reported unbounded but the initial system is {}", other.tag()),
+                    ),
+                    _ => {}
+                }
+            }
+        }
     }
     if ctx.skipped.is_some() || !ctx.violations.is_empty() {
         return finish(ctx);
